@@ -106,6 +106,7 @@ def same(a, b):
     return canon(np.array(a, dtype=complex)) == canon(np.array(b, dtype=complex))
 
 
+_NP_T = [False]   # ask solve_t for the period with a NumPy integer (what np.arange / np.flatnonzero hand out)
 _POS = [1, 1]   # (position of the period under test, the way solve_t is asked for it): [2, -1] = the last period, spelled -1
 
 
@@ -122,7 +123,7 @@ def build(cls, opts, hist, **init):
 
 def call(m, entry, kw):
     if entry == 'solve_t':
-        return refsolve.call_outcome(m.solve_t, _POS[1], **kw)[:2]
+        return refsolve.call_outcome(m.solve_t, np.int64(_POS[1]) if _NP_T[0] else _POS[1], **kw)[:2]
     if entry == 'solve_period':
         return refsolve.call_outcome(m.solve_period, _POS[0], **kw)[:2]
     r = refsolve.call_outcome(m.solve, start=_POS[0], end=_POS[0], **kw)
@@ -159,6 +160,7 @@ def expected_labels(exp, opts, hist):
 def run_case(case):
     opts, hist, arg, entry = case['opts'], case['hist'], case['trace'], case['entry']
     _POS[:] = [2, -1] if case.get('last') else [1, 1]
+    _NP_T[0] = bool(case.get('numpy_t'))
     P = _POS[0]
     hist_full = hist + ['moved'] * 8
     exp = refsolve.ref_trace(opts, hist_full)
@@ -270,12 +272,13 @@ def run_traces(block, tier, acc):
         # the other tracer classes: aliases in trace=..., a renamed trace attribute
         extra = [('AT', ALIAS_TRACE_ARGS[0], 'solve_t'), ('AT', 'first', 'solve'), ('TA', ALIAS_TRACE_ARGS[2], 'solve_t'), ('TA', 'alpha', 'solve_period'),
                  ('R', True, 'solve_t'), ('R', 'AB', 'solve'), ('V', True, 'solve_t'), ('V', ['A', 'X'], 'solve'), ('V', 'AB', 'solve_period'), ('Tc', True, 'solve_t'), ('Tc', ['A', 'B'], 'solve')]
-        extra_last = [('T', True, 'solve_t'), ('T', ['A', 'B'], 'solve_t'), ('T', 'A', 'solve')]   # the LAST period of the span, asked for as position -1
+        extra_last = [('T', True, 'solve_t'), ('T', ['A', 'B'], 'solve_t'), ('T', 'A', 'solve')]
+        extra_np = [('T', True, 'solve_t'), ('T', ['B', 'A'], 'solve_t')]   # the position as np.int64   # the LAST period of the span, asked for as position -1
         if tier != 'quick':
             extra += [(c, a, e) for c in ('AT', 'TA') for a in ALIAS_TRACE_ARGS + [True] for e in ('solve_t', 'solve')] + [('R', ['A', 'B'], 'solve_period')]
-        for cname, arg, entry, last in [x + (False,) for x in extra] + [x + (True,) for x in extra_last]:
+        for cname, arg, entry, last in [x + (False,) for x in extra] + [x + (True,) for x in extra_last] + [x + ('np',) for x in extra_np]:
             if True:
-                case = {'kind': 'trace', 'opts': opts, 'hist': hist, 'trace': arg, 'entry': entry, 'again': False, 'off_variants': arg is True, 'cls': cname, 'last': last}
+                case = {'kind': 'trace', 'opts': opts, 'hist': hist, 'trace': arg, 'entry': entry, 'again': False, 'off_variants': arg is True, 'cls': cname, 'last': last is True, 'numpy_t': last == 'np'}
                 acc.evaluations += 1
                 try:
                     with guard(5):
@@ -285,7 +288,7 @@ def run_traces(block, tier, acc):
                     continue
                 acc.nontrivial += bool(nontrivial)
                 for key, exp, obs, what in v:
-                    acc.violation(key + ':' + entry + ':' + cname + (':last-period-as-minus-1' if last else ''), case, exp, obs, what)
+                    acc.violation(key + ':' + entry + ':' + cname + (':last-period-as-minus-1' if last is True else ':numpy-integer-position' if last == 'np' else ''), case, exp, obs, what)
         acc.sample({'opts': opts, 'hist': hist, 'trace': 'True', 'entry': 'solve_t'}, limit=3)
 
 
@@ -319,6 +322,7 @@ def run_cat_case(case):
     b = fill(T(range(6)), dv)
     p = fill(c02.cat_model(i)(range(6)), dv)
     out = []
+    entry_state = {n: a[n].copy() for n in a.names}
     ra = refsolve.call_outcome(a.solve, trace=arg, **kw)
     rb = refsolve.call_outcome(b.solve, **kw)
     rp = refsolve.call_outcome(p.solve, **kw)
@@ -349,6 +353,11 @@ def run_cat_case(case):
         if list(tr.names) != names:
             out.append(('catalogue:names', names, list(tr.names), 'trace names'))
             continue
+        # 'start' is the period as it stood before this period was touched: endogenous values of earlier periods may have been
+        # solved meanwhile, but position `pos` itself still holds what it held on entry to solve() (an offset copy comes after 'start')
+        start_want = [float(entry_state[n][pos]) for n in names]
+        if not same(tr.values[:, 0].tolist(), start_want):
+            out.append(('catalogue:start-snapshot', start_want, tr.values[:, 0].tolist(), 'the start snapshot does not show the period as it stood before it was solved'))
         final = [float(a[n][pos]) for n in names]
         if not same(tr.values[:, -1].tolist(), final):
             out.append(('catalogue:final-snapshot', final, tr.values[:, -1].tolist(), 'final snapshot differs from the stored solution'))
